@@ -801,6 +801,40 @@ class Checker:
             self.viol('wire:unexpected-server-key-exchange', 'ServerKeyExchange sent for suite %04x' % e.suite, case)
         return True
 
+    # ---- what the documented accessors told an application policy handler about the ClientHello
+    def _policy_view(self, case, pol, ow, S, e):
+        """br_ssl_server_get_client_suites: the suites both sides support, in client order unless the server enforces its
+        own; _get_client_curves / _get_client_hashes: bit fields of what the client announced (as far as this server
+        supports it too: anything else is of no use to a handler and is not judged)."""
+        self.stat('cmp_policy_view')
+        c_list = [x for x in ow.suites if x in SUITES]
+        s_list = list(S['suites'])
+        both = set(c_list) & set(s_list)
+        base = [x for x in (s_list if S['flags'] & OPT_SERVER_PREF else c_list) if x in both]
+        ps = pol['suites']
+        it = iter(base)
+        if len(set(ps)) != len(ps) or not set(ps) <= both or not all(x in it for x in ps):
+            self.viol('policy-view:suites', 'br_ssl_server_get_client_suites gave %s: not a selection, in preference order, of the '
+                      'common suites %s' % (['%04x' % x for x in ps], ['%04x' % x for x in base]), case)
+        if e.status == 'ok' and e.suite not in ps:
+            self.viol('policy-view:suites', 'the suite of the expected outcome (%04x) is not in the list the policy handler '
+                      'was given %s' % (e.suite, ['%04x' % x for x in ps]), case)
+        cm = sum(1 << c for c in ow.curves)
+        sm = sum(1 << c for c in S['curves'])
+        if (pol['curves'] & ~cm) or (pol['curves'] & sm) != (cm & sm):
+            self.viol('policy-view:curves', 'br_ssl_server_get_client_curves gave %#x, the ClientHello says %#x (server: %#x)'
+                      % (pol['curves'], cm, sm), case)
+        sh = set(S['hashes'])
+        for name, shift in (('rsa', 0), ('ecdsa', 8)):
+            for x in (SHA1, SHA224, SHA256, SHA384, SHA512):
+                got = bool((pol['hashes'] >> (shift + x)) & 1)
+                if got and x not in ow.sig[name]:
+                    self.viol('policy-view:hashes', 'br_ssl_server_get_client_hashes (%#x) announces %s with hash %d, the '
+                              'ClientHello does not' % (pol['hashes'], name, x), case)
+                elif x in sh and got != (x in ow.sig[name]):
+                    self.viol('policy-view:hashes', 'br_ssl_server_get_client_hashes (%#x) lacks %s with hash %d, which the '
+                              'ClientHello announces and the server supports' % (pol['hashes'], name, x), case)
+
     # ---- a case with two engines
     def check_pair(self, case):
         C, S, oc, osv = case['C'], case['S'], case['oc'], case['os']
@@ -863,6 +897,8 @@ class Checker:
         if e.why:
             self.stat('reason_' + e.why.replace(' ', '_'))
         self.stat('cmp_outcome')
+        if case.get('pol'):
+            self._policy_view(case, case['pol'], offer_from_hello(ch), S, e)
         both_done = oc['done'] and osv['done']
         any_done = oc['done'] or osv['done']
 
